@@ -24,7 +24,7 @@ from harness.sexp import Sym
 MAX_LANG = {"quick": 400, "thorough": 1500}
 MAX_WORK = {"quick": 40000, "thorough": 250000}
 FUEL = 100000000
-ROUND_CAP = 200000
+ROUND_CAP = 20000
 
 show, of_prog, subterms, tsize = E.show, E.of_prog, E.subterms, E.tsize
 
@@ -147,7 +147,7 @@ def nt_of(a):
     return (a[0], (a[1], None))
 
 
-def expand_cost(g, cost, limit):
+def expand_cost(g, cost, limit, every=None):
     """[(program tuple, integer cost)] of the (finite) language from g.start by top-down expansion"""
     memo = {}
     dangling = []
@@ -183,6 +183,8 @@ def expand_cost(g, cost, limit):
     res = go(g.start)
     if dangling:
         raise E.Dangling()
+    if every is not None:
+        every.update({S: v for S, v in memo.items() if v is not None})
     return res
 
 
@@ -250,7 +252,7 @@ def cost_closure(g, cost, cmax, cap):
                 new = {w} if w <= cmax else set()
             else:
                 new = set()
-                for combo in itertools.combinations_with_replacement(sv[:60], n):
+                for combo in itertools.combinations_with_replacement(sv if n == 1 else sv[:150] if n == 2 else sv[:40] if n == 3 else sv[:12], n):
                     c = w + sum(combo)
                     if c <= cmax:
                         new.add(c)
@@ -262,6 +264,8 @@ def cost_closure(g, cost, cmax, cap):
 
 def work_estimate(g, cost, cmax):
     n = len(cost_closure(g, cost, cmax, 400))
+    if n > 400:
+        return 10 ** 12, n          # every value up to cmax is appended to the cost list, one round each
     return sum((n + 1) ** len(args) for rs in g.rules.values() for args, _ in rs.values()), n
 
 
@@ -474,7 +478,8 @@ def run_case(case, M, tier="quick"):
             lang = None
             break
         try:
-            lang = expand_cost(g, cost, limit)
+            every = {}
+            lang = expand_cost(g, cost, limit, every)
         except E.TooLarge:
             if b.get("max_depth", 1) > 1:
                 b["max_depth"] -= 1
@@ -529,21 +534,30 @@ def run_case(case, M, tier="quick"):
         en.filter = E.HFilter(pred)
     lang_progs = sorted((p for p, _ in lang), key=show) if lang is not None else []
     plan = plan_of(case, len(lang_progs))
-    if rec:
-        cost_bound = None
+    unary = all(len(args) <= 1 for rs in g.rules.values() for args, _ in rs.values())
+    if rec or (case.get("merges") and unary):
+        cost_bound = None       # after a merge the loop stops after 1000 unproductive rounds: affordable on unary grammars
     else:
         cost_bound = max(c for _, c in lang)
     # ---- first run: bounded by the cost of the most expensive program (+ round cap)
-    st = instrument(en, cost_bound, ROUND_CAP)
+    st = instrument(en, cost_bound, 5000 if cost_bound is None else ROUND_CAP)
     steps, script, err, cut, it = run_script(en, plan, lang_progs, 4 * limit + 10)
+    if rec:
+        # no a-priori work estimate on a recursive grammar: halve the prefix until the run is affordable for the model
+        pre = case["prefix"]
+        while pre > 3 and sum((len(en._cost_list) + 1) ** len(args) for rs in g.rules.values() for args, _ in rs.values()) > MAX_WORK[tier]:
+            pre //= 2
+            en = fresh()
+            st = instrument(en, None, 5000)
+            plan = [("take", pre)]
+            steps, script, err, cut, it = run_script(en, plan, lang_progs, 4 * limit + 10)
+        out["prefix"] = pre
     out.update(steps=steps, script=script, err=err, cut=cut, rounds=st["rounds"], en=en)
     # ---- second run, not cut: exactly the programs of the first one; tables at the last suspension
     en2 = fresh()
     if pred is not None:
         en2.filter = E.HFilter(pred)
     plan2 = [a if a[0] == "merge" else ("take", a[1]) for a in script]
-    if cut and plan2 and plan2[-1][0] == "take" and not steps[-1][1]:
-        pass
     it2 = en2.generator()
     yielded2 = []
     ok2 = True
@@ -562,7 +576,8 @@ def run_case(case, M, tier="quick"):
         ok2 = False
     wire = Wire()
     gw = wire.cfg(g, cost)
-    rejected = [p for p, _ in lang if pred is not None and not pred(p)] if lang is not None else []
+    # the filter is asked about the programs of EVERY non-terminal
+    rejected = list({p: 0 for ps in every.values() for p, _ in ps if not pred(p)}) if (lang is not None and pred is not None) else []
     scriptw = [[Sym("take"), a[1]] if a[0] == "take" else [Sym("merge"), wire.prog(a[1]), a[2]] for a in script]
     # probes for the specification: members and near misses
     prng = random.Random(case.get("oseed", 0))
